@@ -13,12 +13,18 @@ import (
 // joinRun: krt.JoinCollection over 2-3 static collections of Obj, a namespace index on the join,
 // subscribers on the join.  Lean: JoinSpec.lean / JoinDriver.lean.
 type joinRun struct {
-	nested    bool // stream joinn: krt.NestedJoinWithMergeCollection over a static collection of collections
-	outer     krt.StaticCollection[krt.Collection[Obj]]
-	member    []bool
-	quiet     bool // nested: nothing happened since the last barrier
-	needSync  bool // nested: an outer change waits for its barrier
-	undisc    bool // nested: the rule "the outer collection changes at quiescent points only" was broken
+	nested   bool // stream joinn: krt.NestedJoinWithMergeCollection over a static collection of collections
+	outer    krt.StaticCollection[krt.Collection[Obj]]
+	member   []bool
+	quiet    bool // nested: nothing happened since the last barrier
+	needSync bool // nested: an outer change waits for its barrier
+	undisc   bool // nested: the rule "the outer collection changes at quiescent points only" was broken
+	// flagged nested cases (F13): the keys the race can have touched (Lean: tainted / pending / involved / flight / window)
+	tainted   []string
+	pending   []int
+	involved  []int
+	flight    []string
+	window    bool
 	merge     bool // stream joinm: krt.JoinWithMergeCollection
 	derived   bool // jd: the joined collections are derived copies of the static ones
 	unchecked bool // ju: krt.WithJoinUnchecked (the generator keeps the keys disjoint)
@@ -194,23 +200,82 @@ func (r *joinRun) touch(k string, i int) {
 func (r *joinRun) barrier() {
 	r.touched = map[string][]int{}
 	r.quiet, r.needSync = true, false
+	r.pending, r.flight, r.window = nil, nil, false
 }
 
-func (r *joinRun) innerOp() {
+func (r *joinRun) taint(ks ...string) {
+	for _, k := range ks {
+		if !contains(r.tainted, k) {
+			r.tainted = append(r.tainted, k)
+		}
+	}
+}
+
+func (r *joinRun) keysOfCol(i int) []string {
+	ks := make([]string, 0, len(r.state[i]))
+	for k := range r.state[i] {
+		ks = append(ks, k)
+	}
+	return ks
+}
+
+// raced: an outer change meets events in flight (Lean: raced).
+func (r *joinRun) raced() {
+	for _, i := range r.pending {
+		if !hasInt(r.involved, i) {
+			r.involved = append(r.involved, i)
+		}
+		r.taint(r.keysOfCol(i)...)
+	}
+	r.window = true
+	r.taint(r.flight...)
+}
+
+// innerOp: an operation on joined collection i that changes key k (k == "": a registration).
+func (r *joinRun) innerOp(k string, i int) {
 	if r.nested && r.started {
+		racy := r.needSync
 		r.undisc = r.undisc || r.needSync
 		r.quiet = false
+		if k != "" {
+			r.flight = append(r.flight, k)
+		}
+		if racy {
+			r.raced()
+		}
+		if k != "" && (r.window || hasInt(r.involved, i)) {
+			r.taint(k)
+		}
 	}
 }
 
-func (r *joinRun) outerOp() {
+// outerOp: a change of the outer collection that concerns collection i.
+func (r *joinRun) outerOp(i int) {
 	if r.nested && r.started {
-		r.undisc = r.undisc || !r.quiet || r.needSync
+		bad := !r.quiet || r.needSync
+		r.undisc = r.undisc || bad
 		r.quiet, r.needSync = false, true
+		if !hasInt(r.pending, i) {
+			r.pending = append(r.pending, i)
+		}
+		if bad {
+			r.raced()
+		}
+		if hasInt(r.involved, i) {
+			r.taint(r.keysOfCol(i)...)
+		}
 	}
 }
 
-func (r *joinRun) inU(k string) bool { return r.flagged && (r.nested || contains(r.unsafeK, k)) }
+func (r *joinRun) inU(k string) bool {
+	if !r.flagged {
+		return false
+	}
+	if r.nested {
+		return contains(r.tainted, k) || k == "" || k == "/" // "/": the key of a zero-valued object
+	}
+	return contains(r.unsafeK, k)
+}
 
 func (r *joinRun) guard() string {
 	switch {
@@ -305,7 +370,7 @@ func (r *joinRun) step(toks []string) (string, string) {
 		if err != nil || !ok || i < 0 || i >= len(r.cols) {
 			return "bad-op", line
 		}
-		r.innerOp()
+		r.innerOp(o.ResourceName(), i)
 		r.touch(o.ResourceName(), i)
 		r.state[i][o.ResourceName()] = o
 		if r.js && i == r.si {
@@ -323,7 +388,7 @@ func (r *joinRun) step(toks []string) (string, string) {
 			return "bad-op", line
 		}
 		if _, f := r.state[i][toks[2]]; f {
-			r.innerOp()
+			r.innerOp(toks[2], i)
 			r.touch(toks[2], i)
 			delete(r.state[i], toks[2])
 			if r.js && i == r.si {
@@ -339,7 +404,7 @@ func (r *joinRun) step(toks []string) (string, string) {
 			return "bad-op", line
 		}
 		if toks[0] != "o.touch" || r.member[i] {
-			r.outerOp()
+			r.outerOp(i)
 		}
 		switch toks[0] {
 		case "o.add":
@@ -373,7 +438,7 @@ func (r *joinRun) step(toks []string) (string, string) {
 			synctest.Wait()
 			r.barrier()
 		} else {
-			r.innerOp()
+			r.innerOp("", 0)
 		}
 		r.addUnsafe(r.multi())
 		r.nsubs++
@@ -381,13 +446,21 @@ func (r *joinRun) step(toks []string) (string, string) {
 		r.subs[toks[1]] = s
 		switch toks[2] {
 		case "single":
-			r.j.Register(func(e krt.Event[Obj]) { rec(s)([]krt.Event[Obj]{e}) })
+			s.reg = r.j.Register(func(e krt.Event[Obj]) { rec(s)([]krt.Event[Obj]{e}) })
 		case "batch":
-			r.j.RegisterBatch(rec(s), true)
+			s.reg = r.j.RegisterBatch(rec(s), true)
 		default:
-			r.j.RegisterBatch(rec(s), false)
+			s.reg = r.j.RegisterBatch(rec(s), false)
 		}
 		r.makeOver()
+		return "ok", line
+	case toks[0] == "junsub" && len(toks) == 2:
+		if !r.started {
+			return "ok", line
+		}
+		synctest.Wait()
+		r.barrier()
+		r.subs[toks[1]].unregister() // UnregisterHandler on a join / merge join / nested join registration
 		return "ok", line
 	}
 	if r.started {
@@ -437,6 +510,9 @@ func (r *joinRun) step(toks []string) (string, string) {
 		impl := toks[0] + " " + answer(u, func() string {
 			if s == nil {
 				return "unknown-subscriber"
+			}
+			if h := s.health(); h != "" {
+				return h
 			}
 			return "accept"
 		})
